@@ -299,7 +299,8 @@ def _expr_trees(leaves):
 def expression_sweep_requests(four_leaves: bool = True) -> list[Request]:
     """Systematic element-wise expression sweep: every expression tree over <= 3 sparse vector operands
     (and the 135 trees over 4) with operators + - *, plus variants in which one leaf is the literal 2 or
-    a contraction M(i,j) * x(j); all operands and the output compressed.  One-dimensional kernels are
+    a contraction M(i,j) * x(j), and smaller sets with the literals 0, 1, 1.5 or an order-0 tensor s() as a leaf;
+    all operands and the output compressed.  One-dimensional kernels are
     cheap, so the *expression* axis (merge lattice, exhaustion, sums next to contractions) is covered
     systematically instead of by hand-picked shapes."""
     names = ["b(i)", "c(i)", "d(i)", "e(i)"]
@@ -312,6 +313,8 @@ def expression_sweep_requests(four_leaves: bool = True) -> list[Request]:
         for n in "bcde":
             if f"{n}(i)" in expr:
                 fmts[n] = "s"
+        if "s()" in expr:
+            fmts["s"] = ""
         if extra_formats:
             fmts.update(extra_formats)
         r = Request.make(text, fmts)
@@ -332,6 +335,20 @@ def expression_sweep_requests(four_leaves: bool = True) -> list[Request]:
             lv[pos] = "M(i,j) * x(j)"
             for n_e, e in enumerate(_expr_trees(lv)):
                 add(e, {"M": "ss" if n_e % 2 else "ds", "x": "s"})
+    # identity / absorbing literals (0 and 1 are what exhaust_tensor and the peephole rules key on), a float
+    # literal and an order-0 tensor as a leaf
+    for pos in range(2):
+        for leaf in ("0", "1", "1.5", "s()"):
+            lv = list(names[:2])
+            lv[pos] = leaf
+            for e in _expr_trees(lv):
+                add(e)
+    for pos in range(3):
+        for leaf in ("0", "s()"):
+            lv = list(names[:3])
+            lv[pos] = leaf
+            for e in _expr_trees(lv)[pos::3]:
+                add(e)
     if four_leaves:
         for e in _expr_trees(names):
             add(e)
